@@ -1,11 +1,12 @@
 #!/bin/bash
 # usage: seedtest.sh <patch.diff> <prop> [<prop> ...]   -- apply a seeded change to /repo, run quick checks, undo
 patch=$1; shift
-git -C /repo apply "$patch" || exit 9
-bk=$(mktemp -d); cp -r /verif/evidence "$bk/"
+R=${VERIF_REPO:-/repo}; V=$(cd "$(dirname "$0")/.." && pwd)
+git -C $R apply "$patch" || exit 9
+bk=$(mktemp -d); cp -r $V/evidence "$bk/"
 for p in "$@"; do
-  /verif/check $p --tier quick 2>/dev/null | grep -E "VIOLATION|KNOWN" | cut -c1-200; echo "  -> $p rc=${PIPESTATUS[0]}"
+  $V/check $p --tier quick 2>/dev/null | grep -E "VIOLATION|KNOWN" | cut -c1-200; echo "  -> $p rc=${PIPESTATUS[0]}"
 done
-git -C /repo checkout -- .
-rm -rf /verif/evidence; cp -r "$bk/evidence" /verif/evidence; rm -rf "$bk"
-/venv/bin/python /verif/harness/translate.py >/dev/null
+git -C $R checkout -- .
+rm -rf $V/evidence; cp -r "$bk/evidence" $V/evidence; rm -rf "$bk"
+/venv/bin/python $V/harness/translate.py >/dev/null
